@@ -713,3 +713,146 @@ pub fn shrink_map(g: &MapDg) -> Vec<MapDg> {
     }
     out
 }
+
+// --- huge digraphs (low-rate legs that reach past the usual size caps) --------
+
+pub const HUGE_ORDERS: &[usize] = &[
+    257, 258, 300, 511, 512, 513, 601, 1023, 1024, 1025, 1649, 1700, 2047, 2048, 2049, 2500, 3000, 3001,
+];
+pub const HUGE_FAMILIES: &[&str] = &[
+    "sparse", "path", "rpath", "circuit", "cycle", "star", "wheel", "outtree", "intree", "wide-row", "last-rows", "complete",
+];
+
+/// Digraphs of several hundred to a few thousand vertices with O(n) arcs
+/// (plus `complete` below 300 vertices and rows of exactly 255/256/257
+/// out-neighbours): size thresholds such as "more than 256 neighbours in a
+/// row", "order >= 512", "order above 1648" or "more rows than 1024" are
+/// typical places for chunking and inline-buffer mistakes.
+pub fn huge_dg() -> BoxedStrategy<(Dg, String)> {
+    (
+        prop_oneof![
+            3 => proptest::sample::select(HUGE_ORDERS.to_vec()),
+            2 => 200..=3100_usize,
+        ],
+        0..HUGE_FAMILIES.len(),
+        vec((any::<u16>(), any::<u16>()), 600),
+        any::<u16>(),
+    )
+        .prop_map(|(n, fam, pairs, pick)| {
+            let name = HUGE_FAMILIES[fam];
+            let mut a: BTreeSet<(usize, usize)> = BTreeSet::new();
+            let far = |raw: u16| ((raw as usize) * n) >> 16;
+            match name {
+                "path" => (0..n - 1).for_each(|i| {
+                    a.insert((i, i + 1));
+                }),
+                "rpath" => (0..n - 1).for_each(|i| {
+                    a.insert((i + 1, i));
+                }),
+                "circuit" => (0..n).for_each(|i| {
+                    a.insert((i, (i + 1) % n));
+                }),
+                "cycle" => (0..n).for_each(|i| {
+                    a.insert((i, (i + 1) % n));
+                    a.insert(((i + 1) % n, i));
+                }),
+                "star" | "wheel" => {
+                    for i in 1..n {
+                        a.insert((0, i));
+                        a.insert((i, 0));
+                    }
+                    if name == "wheel" {
+                        for i in 1..n {
+                            let j = if i == n - 1 { 1 } else { i + 1 };
+                            a.insert((i, j));
+                            a.insert((j, i));
+                        }
+                    }
+                }
+                "outtree" => (1..n).for_each(|v| {
+                    a.insert((idx(pairs[v % pairs.len()].0, v), v));
+                }),
+                "intree" => (1..n).for_each(|v| {
+                    a.insert((v, idx(pairs[v % pairs.len()].0, v)));
+                }),
+                "wide-row" => {
+                    // one row with exactly 255 / 256 / 257 out-neighbours, plus noise
+                    let u = far(pick);
+                    let k = [255, 256, 257][pick as usize % 3].min(n - 1);
+                    let mut added = 0;
+                    let mut v = far(pick.rotate_left(3));
+                    while added < k {
+                        if v != u && a.insert((u, v)) {
+                            added += 1;
+                        }
+                        v = (v + 1) % n;
+                    }
+                    for &p in pairs.iter().take(100) {
+                        a.insert(arc_of(p, n));
+                    }
+                }
+                "last-rows" => {
+                    // arcs leaving and entering the last few rows (dropped-tail mistakes)
+                    for (i, &p) in pairs.iter().take(60).enumerate() {
+                        let u = n - 1 - (i % 5);
+                        let v = far(p.0);
+                        if u != v {
+                            a.insert((u, v));
+                            a.insert((v, n - 1 - ((i + 1) % 3)));
+                        }
+                    }
+                    a.retain(|&(u, v)| u != v);
+                }
+                "complete" if n <= 300 => {
+                    for u in 0..n {
+                        for v in 0..n {
+                            if u != v {
+                                a.insert((u, v));
+                            }
+                        }
+                    }
+                }
+                _ => {
+                    let target = 100 + idx(pick, pairs.len() - 100);
+                    for &p in pairs.iter().take(target) {
+                        a.insert(arc_of(p, n));
+                    }
+                    // always touch the last row and the last column
+                    a.insert((n - 1, far(pick)));
+                    a.insert((far(pick.rotate_left(5)), n - 1));
+                    a.retain(|&(u, v)| u != v);
+                }
+            }
+            (
+                Dg {
+                    order: n,
+                    arcs: a.into_iter().collect(),
+                },
+                format!("huge:{name}"),
+            )
+        })
+        .boxed()
+}
+
+/// A sample of vertex ids for checks that cannot afford all pairs: the first
+/// and last few, both sides of 64-bit / 256 / 1024 boundaries, and a few
+/// pseudo-random ones.
+pub fn sample_ids(n: usize, salt: usize) -> Vec<usize> {
+    let mut s: BTreeSet<usize> = BTreeSet::new();
+    for x in [0, 1, 2, 63, 64, 65, 127, 128, 255, 256, 257, 511, 512, 1023, 1024, 1025, 2047, 2048] {
+        if x < n {
+            s.insert(x);
+        }
+    }
+    for d in 1..=4 {
+        if n >= d {
+            s.insert(n - d);
+        }
+    }
+    let mut x = salt.wrapping_mul(0x9E37_79B9).wrapping_add(12345);
+    for _ in 0..12 {
+        x = x.wrapping_mul(6_364_136_223_846_793_005).wrapping_add(1_442_695_040_888_963_407);
+        s.insert((x >> 33) % n);
+    }
+    s.into_iter().collect()
+}
